@@ -10,7 +10,7 @@ SUITE=$(cd $TMP && PYTHONPATH=$TMP /venv/bin/python -m pytest -q -p no:cacheprov
 (cd /tmp && PYTHONPATH=$TMP timeout 300 /venv/bin/python $SRC/demo.py >/dev/null 2>&1); DEMO_MUT=$?
 (cd /tmp && PYTHONPATH=/repo timeout 300 /venv/bin/python $SRC/demo.py >/dev/null 2>&1); DEMO_ORIG=$?
 echo "suite: $SUITE | demo with change: exit $DEMO_MUT | demo without: exit $DEMO_ORIG"
-cd /verif
+cd "$(dirname "$(dirname "$(readlink -f "$0")")")"
 for c in $CHECKS; do
   OUT=$(NETADDR_REPO=$TMP timeout 1200 ./check $c quick 2>&1); RC=$?
   echo "check $c: exit $RC :: $(echo "$OUT" | grep -E "^VIOLATION" | head -1)"
